@@ -224,7 +224,7 @@ static bool explosive(const Input &in) {
 
 static void prop_c18(Tape &t, Result &r) {
   if (g_req < 0) start_server();  // before this process has compiled anything
-  int n = 2 + (int)t.pick(4);
+  int n = 3 + (int)t.pick(6);
   int nthreads = 1 + (int)t.weighted({2, 3, 2, 1, 1, 1, 1, 1});
   std::vector<Input> inputs;
   for (int i = 0; i < n; i++) {
@@ -330,6 +330,16 @@ static void prop_c18(Tape &t, Result &r) {
   for (auto &in : inputs) r.cls("input:" + in.kind);
   r.nontrivial = nthreads >= 2 ? interleaved_macro_loop : inputs.size() >= 3;
 }
-static Reg reg_c18({"C18", 900, prop_c18, nullptr, nullptr});
+// every case runs in a forked child (Prop::isolated): the case's own sequence of compiles and runs is then the
+// complete history of its process, so a failure is reproducible from the case alone and shrinks
+static Prop mk_c18() {
+  Prop p;
+  p.id = "C18";
+  p.maxlen = 1400;
+  p.fn = prop_c18;
+  p.isolated = true;
+  return p;
+}
+static Reg reg_c18(mk_c18());
 
 VERIF_MAIN
